@@ -28,7 +28,7 @@ const c01UnfoldLimit = 4096
 func (c01) ID() string    { return "C01" }
 func (c01) Level() string { return "exploration" }
 func (c01) Rule() string {
-	return "1-4 builder clients grow operation DAGs over a shared leaf pool (swarm modes: random reuse, diamond chains, ladders, wide fan-outs, linear-only), construction steps interleaved and roots back-propagated in a scheduler-chosen order. Oracles: tree-unfolding twin (every node and leaf recomputed per consumer; gradients of the copies summed by the harness), exact finite differences on linear programs, additivity / order twins over shared leaves, bounded work in simulated steps and in backward-rule applications. Non-trivial: a tracked interior node with >=2 consumers upstream of its root (reconvergence), or >=2 back-propagations meeting at a shared tracked leaf. Distinct: hash of the (client, op, operand-position) sequence plus roots and order."
+	return "1-4 builder clients grow operation DAGs over a shared leaf pool (swarm modes: random reuse, diamond chains, ladders, wide fan-outs, linear-only), construction steps interleaved and roots back-propagated in a scheduler-chosen order. Oracles: tree-unfolding twin (every node and leaf recomputed per consumer; gradients of the copies summed by the harness), exact finite differences on linear programs, additivity / order twins over shared leaves, bounded work in simulated steps and in backward-rule applications. Non-trivial: a tracked interior node with >=2 consumers upstream of its root (reconvergence), or >=2 back-propagations meeting at a shared tracked leaf. Distinct: hash of the (client, op, operand-position) sequence plus roots and order. Rare flavours: deep graphs (150-450 levels), wide fan-out (40-400 consumers of one node, balanced-tree combine), constant-constructor leaves, degenerate call forms; rejected calls from the shared invalid-call catalogue on graph tensors in the main run only."
 }
 func (c01) Assumptions() []string {
 	return []string{
@@ -41,7 +41,7 @@ func (c01) Assumptions() []string {
 }
 func (c01) Extra() map[string]any {
 	e := baseExtra()
-	e["fault_kinds"] = []string{"reorder (order of back-propagations over graphs sharing leaves; interleaving of construction)"}
+	e["fault_kinds"] = []string{"reorder (order of back-propagations over graphs sharing leaves; interleaving of construction; gradients read between back-propagations)", "invalid-call (the shared catalogue of rejected calls, on tensors of the graphs, while they are built and between the back-propagations)"}
 	return e
 }
 
